@@ -54,11 +54,26 @@ def base_specs():
     ]
 
 
+def twin_pack():
+    """Sibling containers that compare equal and hold interned scalars (small
+    ints, booleans, nulls, one-character strings are shared objects): only
+    identity of the *parent* tells the addressed node from its twin."""
+    out = []
+    for inner in (("m", (("x", 1), ("y", True))), ("l", (1, None, "b")),
+                  ("m", (("x", ("l", (1, 2))),)), ("l", (("m", (("x", 1),)),))):
+        out.append(("m", (("a", inner), ("b", inner))))
+        out.append(("l", (inner, inner)))
+        out.append(("m", (("a", inner), ("b", ("m", (("a", inner),))))))
+        out.append(("l", (inner, "sep", inner, inner)))
+    return out
+
+
 def build(tier):
     nmax = 4
     docs = corpus.docs(nmax, (1, 1000, "b", "a"), ("a", "b"), sets=False)
     for base in base_specs():
         docs += corpus.decorations(base, key_alias=False)
+    docs += twin_pack()
     voc = paths.vocab("c01-quick")
     p1 = [rp((s,)) for s in voc]
     navs = [("key", "a"), ("key", "b"), ("idx", 0), ("idx", 1), ("all",),
@@ -66,6 +81,14 @@ def build(tier):
     p2 = [rp((n, s)) for n in navs for s in voc if s[0] != "trav"
           or n[0] != "trav"]
     extra = [rp((("anchor", "A"),)), rp((("key", "b"), ("anchor", "A")))]
+    for first in (("key", "b"), ("idx", 1), ("idx", -1), ("idx", 2)):
+        for second in (("key", "x"), ("key", "y"), ("idx", 0), ("idx", 1),
+                       ("idx", 2)):
+            extra.append(rp((first, second)))
+            for third in (("idx", 0), ("key", "x"), ("idx", 1)):
+                extra.append(rp((first, second, third)))
+    extra.append(rp((("key", "b"), ("key", "a"), ("key", "x"))))
+    extra.append(rp((("key", "b"), ("key", "a"), ("idx", 0))))
     return docs, p1 + extra, p2
 
 
